@@ -643,7 +643,7 @@ def check_c14(tier, seed, chk):
     def feed(path):
         return path, run_zoo(binary, ["--test", "--include-ignored", "--exact", path], timeout=120)
 
-    step = 1 if tier == "thorough" or len(listed) < 400 else 2
+    step = 1 if tier == "thorough" or len(listed) < 1500 else 2
     for path, r in pmap(feed, listed[::step]):
         count_run(res, r, len(r.log))
         want = expected_records(model, by_path.get(path, []))
@@ -1179,7 +1179,7 @@ def check_c16(tier, seed, chk):
     res = new_result("zoo-C16", tier)
     t0 = time.time()
     cases = model["cases"]
-    fams = ["srt", "ign", "nest"] + sorted(k for k, v in model["families"].items() if v == "shapes")[:: 4 if tier == "quick" else 1]
+    fams = ["srt", "ign", "nest", "pw"] + sorted(k for k, v in model["families"].items() if v == "shapes")[:: 4 if tier == "quick" else 1]
     jobs = []
     for fam in fams + [None]:
         for sort in SORTS:
@@ -1294,14 +1294,14 @@ def check_options(tier, seed, chk, prop):
     t0 = time.time()
     ncpu = model["_ncpu"]
     benches = {b["id"]: b for b in model["benches"]}
-    opt_cases = [c for c in model["cases"] if c["path"].startswith("zoo::opt::")]
+    opt_cases = [c for c in model["cases"] if c["path"].startswith(("zoo::opt::", "zoo::pw::"))]
 
     def one(src):
         name, argv, env, mode, runner = src
         e = dict(env)
         if mode:
             e["ZOO_MODE"] = mode
-        return src, run_zoo(binary, ["--bench", "--timer", "tsc"] + argv + ["^zoo::opt::"], e, want_stats=True, clock=CLOCK, timeout=900)
+        return src, run_zoo(binary, ["--bench", "--timer", "tsc"] + argv + ["^zoo::(opt|pw)::"], e, want_stats=True, clock=CLOCK, timeout=900)
 
     for (name, argv, env, mode, runner), r in pmap(one, RUNNER_SOURCES):
         count_run(res, r, len(r.log))
@@ -1328,6 +1328,8 @@ def check_options(tier, seed, chk, prop):
         for c in opt_cases:
             b = benches[c["bench"]]
             calls, rows = expected_bench_mode(b, ncpu, runner)
+            if c["ignore"]:
+                calls, rows = 0, []   # effective ignore: shown as (ignored), never run
             if calls is None:
                 res["excluded"] += 1
                 continue
@@ -1350,6 +1352,8 @@ def check_options(tier, seed, chk, prop):
             want_counters = [runner.get("bytes", effc.get("bytes_count")), runner.get("chars", effc.get("chars_count")), runner.get("cycles", effc.get("cycles_count")), runner.get("items", effc.get("items_count"))]
             if b.get("style") == "counter":
                 want_counters[3] = 7   # Bencher::counter(ItemsCount 7) replaces only its own kind
+            if b.get("style") == "values":
+                want_counters[0] = 3   # input_counter(BytesCount 3 per input) replaces only its own kind
             for _, st in stats_by_bench.get(c["path"], []):
                 if st["sample_count"] == 0:
                     continue
@@ -1369,7 +1373,7 @@ def check_options(tier, seed, chk, prop):
             violation(res, {"check": "ignore-e2e", "flag": flag}, "flag %s: executed %s..., effective ignore demands %s... (differences: %s)" % (flag, got[:3], want[:3], sorted(set(want) ^ set(got))[:5]), r)
     res["distinct_outcomes"] = len(RUNNER_SOURCES)
     res["samples"] = [{"runner_sources": [x[0] for x in RUNNER_SOURCES]}, {"option_family_benches": len(opt_cases)}]
-    res["bounds"] = {"attribute_levels": "benchmark and 3 nested groups: all 16 set/unset patterns for sample_count and for sample_size; threads / counters / zero cases",
+    res["bounds"] = {"attribute_levels": "benchmark and 3 nested groups: all 16 set/unset patterns for sample_count and for sample_size; threads / counters / zero cases; plus the pairwise feature family (every compatible pair of 21 item features)",
                      "runner_sources": len(RUNNER_SOURCES), "observed": ["calls per benchmark (invocation log)", "samples / iters per thread count (statistics tap + painted cells)", "counter kinds and values", "thread-count branches", "executed set under the three ignore flags"],
                      "excluded": "automatic sample size with several threads (clock readings depend on the schedule)", "tier_zoo": tier}
     res["wall_s"] = time.time() - t0
